@@ -320,6 +320,19 @@ def run_case(case: Dict[str, Any]) -> core.Res:
                     deco = r.choice(['@overload', '@typing.overload'])
                     lines.append(f'{ind}{deco}\n{ind}def g{n}{sig}: ...')
                 lines.append(f'{ind}def g{n}(*args, **kwargs): pass')
+                if not where and r.random() < .5:
+                    # a class defined below has a method of the same name, with overloads of its own
+                    lines.append(f'class H{n}:')
+                    for j in range(r.randint(1, 3)):
+                        sig = S.random_sig(r, complex_exprs=False)
+                        inner = sig[1:]
+                        sig = '(self' + (', ' if not inner.startswith(')') else '') + inner
+                        try:
+                            ast.parse(f'def m{sig}: pass')
+                        except SyntaxError:
+                            sig = '(self)'
+                        lines.append(f'    @overload\n    def g{n}{sig}: ...')
+                    lines.append(f'    def g{n}(self, *a, **k): pass')
                 n += k
         for lo in range(0, len(lines), 10 ** 9):
             _run_module(res, '\n'.join(lines) + '\n', f"R:{case['seed']}:{case['k']}")
